@@ -125,3 +125,53 @@ Proof.
   split; [reflexivity|].
   intros p; destruct p; (eexists; split; [reflexivity | reflexivity]).
 Qed.
+
+(* ---- convert_to_storage / convert_from_storage, executed under every storage configuration ---- *)
+Definition skey := (bool * Units.prefix * Units.prefix * base)%type.
+Definition skey_eqb (x y : skey) : bool :=
+  match x, y with (t, c, p, b), (t', c', p', b') => Bool.eqb t t' && prefix_eqb c c' && prefix_eqb p p' && base_eqb b b' end.
+Fixpoint slookup (x : skey) (l : list (skey * cell)) : option cell :=
+  match l with [] => None | (y, c) :: t => if skey_eqb x y then Some c else slookup x t end.
+Definition model_storage_cell (x : skey) : cell :=
+  match x with (to, c, p, _) => if to then CVal (pmult p / pmult c) 1 0 0 0 else CVal (pmult c / pmult p) 1 0 0 0 end.
+Definition all_skeys : list skey := list_prod (list_prod (list_prod [true; false] all_prefixes) all_prefixes) [BL; BMol].
+Definition scell_ok (x : skey) : bool :=
+  match slookup x sym_storage with Some c => cell_eqb c (model_storage_cell x) | None => false end.
+Lemma sym_storage_ok : forallb scell_ok all_skeys = true.
+Proof. vm_cast_no_check (eq_refl true). Qed.
+Lemma all_skeys_complete to c p b : b = BL \/ b = BMol -> In (to, c, p, b) all_skeys.
+Proof.
+  intros Hb. unfold all_skeys. repeat apply in_prod.
+  - destruct to; cbn; tauto.
+  - destruct c; cbn; tauto.
+  - destruct p; cbn; tauto.
+  - destruct Hb; subst; cbn; tauto.
+Qed.
+Lemma slookup_ok x : In x all_skeys -> exists c, slookup x sym_storage = Some c /\ cell_eqb c (model_storage_cell x) = true.
+Proof.
+  intros Hx. pose proof (proj1 (forallb_forall scell_ok all_skeys) sym_storage_ok x Hx) as H. unfold scell_ok in H.
+  destruct (slookup x sym_storage) as [c|]; [exists c; split; [reflexivity | exact H] | discriminate].
+Qed.
+
+(* what the source computes for a stored volume / amount of moles, read off the executed table; s is any substance (unused) *)
+Definition sym_storage_run (to : bool) (cf : cfg) (vol : bool) (v : Q) (p : Units.prefix) (s : substance) : option Q :=
+  match slookup (to, (if vol then vol_pfx cf else mol_pfx cf), p, (if vol then BL else BMol)) sym_storage with
+  | Some c => eval_cell c s v
+  | None => None
+  end.
+Theorem sym_storage_eq_model cf v p s :
+  optQeq (sym_storage_run true cf true v p s) (Some (to_storage_vol cf v p)) /\
+  optQeq (sym_storage_run true cf false v p s) (Some (to_storage_mol cf v p)) /\
+  optQeq (sym_storage_run false cf true v p s) (Some (from_storage_vol cf v p)) /\
+  optQeq (sym_storage_run false cf false v p s) (Some (from_storage_mol cf v p)).
+Proof.
+  assert (X : forall to c b, b = BL \/ b = BMol ->
+            optQeq (match slookup (to, c, p, b) sym_storage with Some k => eval_cell k s v | None => None end)
+                   (Some (if to then v * pmult p / pmult c else v * pmult c / pmult p))).
+  { intros to c b Hb. destruct (slookup_ok _ (all_skeys_complete to c p b Hb)) as (k & E & H). rewrite E.
+    refine (optQeq_trans _ _ _ (cell_eqb_sound _ _ s v H) _).
+    pose proof (pmult_pos c). pose proof (pmult_pos p).
+    unfold model_storage_cell. destruct to; cbn -[pmult Qmult Qdiv]; field; lra. }
+  unfold sym_storage_run, to_storage_vol, to_storage_mol, from_storage_vol, from_storage_mol.
+  repeat split; cbn [andb]; (eapply optQeq_trans; [apply X; auto | cbn; rewrite rnd_eq; reflexivity]).
+Qed.
